@@ -98,6 +98,38 @@ def trace_eval_stage(ev, prop, aspects, tier, seed, n_quick=1500, n_thorough=200
     return out, None
 
 
+def trace_large_stage(ev, prop, aspects, tier, seed):
+    """A few LARGE documents (arrays of 600/3000 elements, objects with 300/1500 members, strings and names of thousands
+    of characters) with index / slice / filter / descendant queries around their ends: recorded and validated by Trace_Eval."""
+    size = 3000 if tier == "thorough" else 600
+    trace = os.path.join(WORK, f"{prop}-large-{os.getpid()}.trace")
+    with open(trace, "w") as f:
+        p = subprocess.run([harness_bin("record"), "large", "--seed", str(seed), "--n", str(size)], stdout=f, stderr=subprocess.PIPE, text=True)
+    if p.returncode != 0:
+        raise ToolError("record large failed: " + p.stderr[-500:])
+    mism, summary = validate_trace(ev, "Trace_Eval", trace, "Trace_Eval[large]", timeout=2400)
+    out = []
+    for m in mism:
+        e, j = m["event"], m["judgement"]
+        hit = [a for a in j["aspects"] if a in aspects]
+        if not hit:
+            continue
+        out.append({"kind": "mismatch", "check": hit[0], "repr": "Value", "id": e["id"], "q": cps(e["q"])[:300], "doc": f"<large document, size {size}>",
+                    "what": "recorded evaluation on a large document is not a behaviour of the specification (" + hit[0] + ")",
+                    "verdict": j["verdict"], "outcome": e["outcome"], "expect": [loc_disp(l) for l in j["expect"]][:20],
+                    "actual": [loc_disp(l) for l in e.get("res", [])][:20], "selector_major": j["sm"], "same_multiset": "nodes" not in j["aspects"],
+                    "expected_paths": [cps(x) for x in j["expect_paths"]][:20], "actual_paths": [cps(x) for x in e.get("paths", [])][:20], "trace": True})
+    ev.evaluations += summary["events"]
+    ev.distinct_nontrivial += summary.get("valid_ok", 0)
+    ev.extra["trace_large"] = {"events": summary["events"], "size": size, "valid_and_conforming": summary.get("valid_ok", 0)}
+    os.remove(trace)
+    return out, None
+
+
+def TL(prop, aspects):
+    return lambda ev, tier, seed: trace_large_stage(ev, prop, aspects, tier, seed)
+
+
 def TE(prop, aspects):
     return lambda ev, tier, seed: trace_eval_stage(ev, prop, aspects, tier, seed)
 
